@@ -43,6 +43,21 @@ CLAIMED = {
         'argued on paper (both sides are left folds of step functions proved equal). _tt2_send_cmd_recv_rsp CRC '
         'rejection and termination of the ACK-skipping loop are not covered.',
    technique='contract-based deductive verification: AST->z3 VC generation (pyvc), bit-vector mode for the CRC'),
+ 'C15': dict(
+   category='proof',
+   text='Lock-ownership contracts: every method of the driver interface (models/clf_models.DeviceModel: mute, sense_*, '
+        'listen_*, send_*, size queries, LED/buzzer, close) requires "clf.lock held and device open"; the requirement is '
+        'an obligation at every call into self.device reached from open, close, sense, listen, exchange, '
+        'max_send/recv_data_size, _rdwr_connect (presence-check loop and LED phases), _llcp_connect, _card_connect, '
+        'connect and __exit__, for all option/callback outcomes. self.device is havocked to None at every lock '
+        'acquisition (another thread may have closed it), so a missing None check fails too; re-acquiring the '
+        'non-reentrant lock is an obligation (no self-deadlock).',
+   design_ref='DESIGN.md section 5 (C15)',
+   note='Meta-argument (trusted): if every driver call is made with the one frontend lock held, driver calls from '
+        'different threads cannot overlap; threads are not executed. nfc.tag.activate/emulate, device.connect and the '
+        'LLC are replaced by assumed contracts/models that use only the public frontend API. __str__ attribute reads '
+        'are not covered.',
+   technique='contract-based deductive verification: ghost lock state + interface preconditions per call site (pyvc)'),
 }
 
 NOT_APPLICABLE = {}
